@@ -92,6 +92,149 @@ inductive Dialect | sqlite | postgres | mysql | oracle
 def Dialect.ofString? : String → Option Dialect
   | "sqlite" => some .sqlite | "postgres" => some .postgres | "mysql" => some .mysql | "oracle" => some .oracle | _ => none
 
+/-! ## decimal numbers -/
+
+def digitChar (n : Nat) : Char := Char.ofNat (48 + n)
+def isDig (c : Char) : Bool := decide (48 ≤ c.toNat) && decide (c.toNat ≤ 57)
+def digitVal (c : Char) : Nat := c.toNat - 48
+
+/-- Python `str(n)` / `'%d' % n` for a natural number -/
+def natDigits (n : Nat) : Str :=
+  if _h : n < 10 then [digitChar n] else natDigits (n / 10) ++ [digitChar (n % 10)]
+termination_by n
+decreasing_by omega
+
+/-- Python `str(i)` for an int -/
+def intStr (i : Int) : Str := if i < 0 then '-' :: natDigits i.natAbs else natDigits i.natAbs
+
+/-- value of a digit string -/
+def digitsVal (ds : Str) : Nat := ds.foldl (fun a c => a * 10 + digitVal c) 0
+
+/-- the maximal run of digits at the start of the input, and the rest -/
+def spanDigits : Str → Str × Str
+  | [] => ([], [])
+  | c :: r => if isDig c then let p := spanDigits r; (c :: p.1, p.2) else ([], c :: r)
+
+/-- a numeric literal as every SQL dialect here reads it: optional `-`, then a maximal run of digits -/
+def lexNat (s : Str) : Option (Nat × Str) :=
+  let p := spanDigits s
+  if p.1.isEmpty then none else some (digitsVal p.1, p.2)
+
+def lexInt : Str → Option (Int × Str)
+  | [] => none
+  | c :: r =>
+    if c = '-' then (lexNat r).map (fun (p : Nat × Str) => (-(p.1 : Int), p.2))
+    else (lexNat (c :: r)).map (fun (p : Nat × Str) => ((p.1 : Int), p.2))
+
+/-- `'%0<k>d' % n`: zero padded to at least `k` digits -/
+def pad (k n : Nat) : Str := List.replicate (k - (natDigits n).length) '0' ++ natDigits n
+
+/-- the numbers in a text: values of its maximal digit runs, in order (how ISO dates/times are read back) -/
+def fields : Option Nat → Str → List Nat
+  | cur, [] => cur.toList
+  | cur, c :: r =>
+    if isDig c then fields (some (cur.getD 0 * 10 + digitVal c)) r
+    else cur.toList ++ fields none r
+
+/-! ## dates, times, intervals (`Value.__str__`, `SQLiteValue`, `MySQLValue`, `datetime2timestamp`, `timedelta2str`) -/
+
+structure PDate where (y m d : Nat) deriving Repr, DecidableEq, Inhabited
+structure PTime where (h mi s us : Nat) deriving Repr, DecidableEq, Inhabited
+/-- a normalised Python timedelta: `0 ≤ secs < 86400`, `0 ≤ us < 10^6`, any sign of `days` -/
+structure PDelta where (days : Int) (secs us : Nat) deriving Repr, DecidableEq, Inhabited
+
+/-- `str(date)` = `date.isoformat()` -/
+def dateStr (x : PDate) : Str := pad 4 x.y ++ '-' :: pad 2 x.m ++ '-' :: pad 2 x.d
+def hmsStr (t : PTime) : Str := pad 2 t.h ++ ':' :: pad 2 t.mi ++ ':' :: pad 2 t.s
+/-- `time.isoformat()`: microseconds only when non-zero -/
+def isoTime (t : PTime) : Str := if t.us = 0 then hmsStr t else hmsStr t ++ '.' :: pad 6 t.us
+/-- `datetime2timestamp(d)`: `isoformat(' ')`, always with six fractional digits -/
+def timestampStr (x : PDate) (t : PTime) : Str := dateStr x ++ ' ' :: hmsStr t ++ '.' :: pad 6 t.us
+
+/-- `'%d:%d:%d' % (hours, minutes, seconds)` (+ `'.%06d' % microseconds` when non-zero) after the two `divmod`s -/
+def hmsBody (total us : Nat) : Str :=
+  let body := natDigits (total / 60 / 60) ++ ':' :: natDigits (total / 60 % 60) ++ ':' :: natDigits (total % 60)
+  if us ≠ 0 then body ++ '.' :: pad 6 us else body
+
+/-- `pony.converting.timedelta2str` -/
+def timedelta2str (td : PDelta) : Str :=
+  let total0 : Int := td.days * 86400 + td.secs
+  if td.days < 0 then
+    if td.us ≠ 0 then '-' :: hmsBody (total0.natAbs - 1) (1000000 - td.us)
+    else '-' :: hmsBody total0.natAbs 0
+  else hmsBody total0.natAbs td.us
+
+inductive TVal
+  | date (x : PDate)
+  | datetime (x : PDate) (t : PTime)
+  | time (t : PTime)
+  | delta (td : PDelta)
+  deriving Repr, Inhabited
+
+def kwDate : Str := ['D', 'A', 'T', 'E', ' ']
+def kwTime : Str := ['T', 'I', 'M', 'E', ' ']
+def kwTimestamp : Str := ['T', 'I', 'M', 'E', 'S', 'T', 'A', 'M', 'P', ' ']
+def kwInterval : Str := ['I', 'N', 'T', 'E', 'R', 'V', 'A', 'L', ' ']
+def unitStd : Str := [' ', 'H', 'O', 'U', 'R', ' ', 'T', 'O', ' ', 'S', 'E', 'C', 'O', 'N', 'D']
+def unitMyS : Str := [' ', 'H', 'O', 'U', 'R', '_', 'S', 'E', 'C', 'O', 'N', 'D']
+def unitMyUs : Str := [' ', 'H', 'O', 'U', 'R', '_', 'M', 'I', 'C', 'R', 'O', 'S', 'E', 'C', 'O', 'N', 'D']
+
+/-- the type keyword a dialect's Value class writes in front of the quoted text (SQLite stores these kinds as text: none) -/
+def temporalKw (d : Dialect) : TVal → Str
+  | .date _ => if d = .sqlite then [] else kwDate
+  | .datetime _ _ => if d = .sqlite then [] else kwTimestamp
+  | .time _ => if d = .sqlite then [] else kwTime
+  | .delta _ => kwInterval
+
+/-- the text inside the quotes -/
+def temporalText : TVal → Str
+  | .date x => dateStr x
+  | .datetime x t => timestampStr x t
+  | .time t => isoTime t
+  | .delta td => timedelta2str td
+
+/-- `Value.__str__` / `SQLiteValue.__str__` / `MySQLValue.__str__` for dates, times, intervals.
+    `none`: SQLite renders a timedelta as `repr` of a float number of days (not modelled; tied by the query oracle). -/
+def temporalStr (d : Dialect) (style : Style) : TVal → Option Str
+  | .delta td =>
+    match d with
+    | .sqlite => none
+    | .mysql => some (kwInterval ++ '\'' :: timedelta2str td ++ '\'' :: (if td.us ≠ 0 then unitMyUs else unitMyS))
+    | _ => some (kwInterval ++ '\'' :: timedelta2str td ++ '\'' :: unitStd)
+  | v => some (temporalKw d v ++ quoteStrL style (temporalText v))
+
+/-- reading an ISO date / time / timestamp back -/
+def parseDate (t : Str) : Option PDate :=
+  match fields none t with
+  | [y, m, d] => some ⟨y, m, d⟩
+  | _ => none
+def parseTime (t : Str) : Option PTime :=
+  match fields none t with
+  | [h, mi, s] => some ⟨h, mi, s, 0⟩
+  | [h, mi, s, us] => some ⟨h, mi, s, us⟩
+  | _ => none
+def parseTimestamp (t : Str) : Option (PDate × PTime) :=
+  match fields none t with
+  | [y, m, d, h, mi, s, us] => some (⟨y, m, d⟩, ⟨h, mi, s, us⟩)
+  | _ => none
+
+/-- total microseconds of a timedelta -/
+def PDelta.micros (td : PDelta) : Int := (td.days * 86400 + td.secs) * 1000000 + td.us
+
+/-- microseconds denoted by an unsigned interval text `h:m:s[.ffffff]` -/
+def intervalVal (body : Str) : Option Nat :=
+  match fields none body with
+  | [h, m, s] => some (((h * 60 + m) * 60 + s) * 1000000)
+  | [h, m, s, us] => some (((h * 60 + m) * 60 + s) * 1000000 + us)
+  | _ => none
+
+/-- microseconds denoted by an interval text `[-]h:m:s[.ffffff]` -/
+def parseInterval : Str → Option Int
+  | [] => none
+  | c :: r =>
+    if c = '-' then (intervalVal r).map (fun (n : Nat) => -(n : Int))
+    else (intervalVal (c :: r)).map (fun (n : Nat) => (n : Int))
+
 /-- the values `Value.__str__` is modelled for -/
 inductive Val
   | none
@@ -112,7 +255,7 @@ def valueStr (d : Dialect) (style : Style) : Val → Str
   | .none => ['n', 'u', 'l', 'l']
   | .bool b => if d = .postgres then (if b then ['t', 'r', 'u', 'e'] else ['f', 'a', 'l', 's', 'e']) else (if b then ['1'] else ['0'])
   | .str s => quoteStrL style s
-  | .int i => (toString i).toList
+  | .int i => intStr i
   | .bytes b => 'X' :: '\'' :: (hexlify b ++ ['\''])
 
 /-- `SQLBuilder.MOD`: `' %% ' if builder.paramstyle in ('format', 'pyformat') else ' % '` -/
